@@ -1,6 +1,7 @@
 import ShredModel.Lemmas.Scenario
 import ShredModel.Lemmas.Effect
 import ShredModel.Lemmas.SeqTrace
+import ShredModel.Lemmas.NestedTop
 /-!
 # C05 — schedule independence: parallel dispatch equals sequential dispatch
 
@@ -112,6 +113,85 @@ theorem C05_harness_schedule_independent (l : List (Ev SysTag)) (hl : Traces sc.
 
 end Scenario
 
+
+/-! ### dispatchers with batches, nested to any depth -/
+namespace Level
+variable {D : SysTag → Decl} (L : Level D)
+
+theorem seqTrace_nStageTask (par : Bool) (bs : List (SysTag × Body)) (pfx : Inst) (st : List (List SysTag)) :
+    (nStageTask par bs pfx st).seqTrace = (nStageTask false bs pfx st).seqTrace := by
+  cases par with
+  | false => rfl
+  | true =>
+    simp only [nStageTask, if_true, seqTrace_parN]
+    exact (seqTrace_seqN _).symm
+
+/-- reading the parallel plan group by group is what `dispatch_seq` executes, batches included
+(their controllers still call `dispatch` on the inner dispatcher: same bodies) -/
+theorem seqTrace_task (par : Bool) (pfx : Inst) : (L.task par pfx).seqTrace = (L.task false pfx).seqTrace := by
+  unfold task nDispatchTask
+  simp only [Task.seqTrace, seqTrace_seqN]
+  congr 1
+  induction L.stages with
+  | nil => rfl
+  | cons st sts ih => simp only [List.map_cons, List.flatMap_cons, ih, seqTrace_nStageTask par]
+
+/-- **C05 at any nesting depth.** Every interleaving of a dispatcher with batches (their inner
+dispatchers running in parallel too, any number of iterations) has the effect of the one
+sequential reading, provided instances with non-conflicting declarations commute. -/
+theorem C05_nested {σ : Type} (act : Ev Inst → σ → σ)
+    (hcomm : ∀ e1 e2, CompatI D e1.sys e2.sys → ∀ s, act e1 (act e2 s) = act e2 (act e1 s))
+    (par : Bool) (pfx : Inst) (l : List (Ev Inst)) (hl : Traces (L.task par pfx) l) (s : σ) :
+    eval act l s = eval act (L.task false pfx).seqTrace s := by
+  rw [← L.seqTrace_task par pfx]
+  exact par_eq_seq (Compat := CompatI D) act hcomm hl (L.wf par pfx) s
+
+/-- the harness's effect per instance: the system with the instance's tag runs once inside the
+window (controllers of batches — `isSys = false` — have no effect of their own) -/
+def harnessActI (D : SysTag → Decl) (isSys : SysTag → Bool) : Ev Inst → EffState → EffState
+  | .D x, st => if isSys (lastTag x) then runSys (lastTag x) (D (lastTag x)) st else st
+  | .F _, st => st
+
+theorem harnessActI_commutes (isSys : SysTag → Bool) (e1 e2 : Ev Inst)
+    (h : CompatI D e1.sys e2.sys) (s : EffState) :
+    harnessActI D isSys e1 (harnessActI D isSys e2 s) = harnessActI D isSys e2 (harnessActI D isSys e1 s) := by
+  cases e1 with
+  | F x => rfl
+  | D x =>
+    cases e2 with
+    | F y => rfl
+    | D y =>
+      simp only [harnessActI]
+      by_cases hx : isSys (lastTag x) = true
+      · by_cases hy : isSys (lastTag y) = true
+        · simp only [hx, hy, if_true]
+          by_cases hxy : lastTag x = lastTag y
+          · rw [hxy]
+          · exact runSys_comm _ _ _ _ hxy h s
+        · simp [hx, hy]
+      · simp [hx]
+
+/-- **C05 for the harness's systems at any depth**: what `effects k` of the driver computes (the
+sequential reading) is the effect of every real interleaving. -/
+theorem C05_nested_harness (isSys : SysTag → Bool) (par : Bool) (pfx : Inst) (l : List (Ev Inst))
+    (hl : Traces (L.task par pfx) l) (st : EffState) :
+    eval (harnessActI D isSys) l st = eval (harnessActI D isSys) (L.task false pfx).seqTrace st :=
+  L.C05_nested (harnessActI D isSys) (harnessActI_commutes isSys) par pfx l hl st
+
+/-- … and over any number of dispatches -/
+theorem C05_nested_repeated {σ : Type} (act : Ev Inst → σ → σ)
+    (hcomm : ∀ e1 e2, CompatI D e1.sys e2.sys → ∀ s, act e1 (act e2 s) = act e2 (act e1 s))
+    (par : Bool) (pfx : Inst) (ls : List (List (Ev Inst))) (hls : ∀ l, l ∈ ls → Traces (L.task par pfx) l) (s : σ) :
+    eval act ls.flatten s = eval act (List.replicate ls.length (L.task false pfx).seqTrace).flatten s := by
+  induction ls generalizing s with
+  | nil => rfl
+  | cons l ls ih =>
+    simp only [List.flatten_cons, List.length_cons, List.replicate_succ, eval_append]
+    rw [L.C05_nested act hcomm par pfx l (hls l (by simp)) s]
+    exact ih (fun l' hl' => hls l' (by simp [hl'])) _
+
+end Level
+
 /-- the update really is order-sensitive: two writers of one resource do **not** commute -/
 example : (runSys 0 ⟨[], [⟨0, 0⟩], 1⟩ (runSys 1 ⟨[], [⟨0, 0⟩], 1⟩ EffState.init)).world ⟨0, 0⟩ ≠
     (runSys 1 ⟨[], [⟨0, 0⟩], 1⟩ (runSys 0 ⟨[], [⟨0, 0⟩], 1⟩ EffState.init)).world ⟨0, 0⟩ := by decide
@@ -125,3 +205,9 @@ end Shred
 #print axioms Shred.Scenario.C05_repeated
 #print axioms Shred.Scenario.C05_harness_commutes
 #print axioms Shred.Scenario.C05_harness_schedule_independent
+#print axioms Shred.Level.C05_nested
+#print axioms Shred.Level.C05_nested_harness
+#print axioms Shred.Level.C05_nested_repeated
+#print axioms Shred.Level.seqTrace_task
+#print axioms Shred.Level.seqTrace_nStageTask
+#print axioms Shred.Level.harnessActI_commutes
